@@ -209,6 +209,11 @@ func (k *keyring) mint(s tokSpec) (string, tokDesc) {
 		tok = in + "." + signRSA(k.rsa1, in)
 	case "twoseg":
 		tok = hdr("RS256", "k1") + "." + b64u(payload)
+	case "bare-claims": // the claims object itself, not a JWS at all (a lenient JWT parser accepts it when it does not verify)
+		tok = string(payload)
+	case "json-jws": // JWS JSON serialisation (flattened) instead of the compact one
+		in := hdr("RS256", "k1") + "." + b64u(payload)
+		tok = fmt.Sprintf(`{"protected":%q,"payload":%q,"signature":%q}`, hdr("RS256", "k1"), b64u(payload), signRSA(k.rsa1, in))
 	default: // garbage
 		tok = "not-a-jwt-" + s.Extra
 	}
@@ -668,6 +673,8 @@ type World struct {
 	// requests served so far (Redis: selects the replica that serves the next one); PinReplica keeps the first replica
 	reqCount   int
 	PinReplica bool
+	// OK verdicts of checks during which a Redis command was failed (C01)
+	OKDespiteCmdFault []string
 }
 
 type cfgOpts struct {
@@ -823,8 +830,9 @@ func (w *World) mint(s tokSpec) string {
 
 // cmdFaultHook fails the next Redis command of a given name (command-level fault: the server is not reached).
 type cmdFaultHook struct {
-	mu   sync.Mutex
-	fail map[string]bool
+	mu    sync.Mutex
+	fail  map[string]bool
+	fired []string // commands that were actually failed during the current request
 }
 
 func (h *cmdFaultHook) DialHook(next redis.DialHook) redis.DialHook { return next }
@@ -834,6 +842,7 @@ func (h *cmdFaultHook) ProcessHook(next redis.ProcessHook) redis.ProcessHook {
 		f := h.fail[strings.ToLower(cmd.Name())]
 		if f {
 			delete(h.fail, strings.ToLower(cmd.Name()))
+			h.fired = append(h.fired, strings.ToLower(cmd.Name()))
 		}
 		h.mu.Unlock()
 		if f {
@@ -949,6 +958,7 @@ func (w *World) Do(r reqSpec, faults map[int]faultKind, jwksFail bool) stepRec {
 	if w.rhook != nil {
 		w.rhook.mu.Lock()
 		w.rhook.fail = map[string]bool{}
+		w.rhook.fired = nil
 		for _, c := range w.NextCmdFaults {
 			w.rhook.fail[c] = true
 		}
@@ -975,6 +985,15 @@ func (w *World) Do(r reqSpec, faults map[int]faultKind, jwksFail bool) stepRec {
 	}()
 	st.Resp = observe(resp, err, pv)
 	st.Trace = append([]effRec(nil), w.rec.trace...)
+	// fail-closed below the store interface: a Redis command of this check failed (the server was not reached) - whatever the
+	// store makes of it, the check must not be answered OK
+	if w.rhook != nil {
+		w.rhook.mu.Lock()
+		if len(w.rhook.fired) > 0 && st.Resp.Class == "allow" {
+			w.OKDespiteCmdFault = append(w.OKDespiteCmdFault, fmt.Sprintf("request %s %s: Redis command(s) %v failed, verdict OK", r.Path, r.Cookie, w.rhook.fired))
+		}
+		w.rhook.mu.Unlock()
+	}
 	// an answer already handed back must not change when later checks are processed (gRPC serialises it later)
 	if w.lastResp != nil {
 		if again := observe(w.lastResp, nil, nil); again.Gal != w.lastGal {
